@@ -272,7 +272,7 @@ func (u *Unit) lockOp(fr *Frame, st *State, pv Val, mode int64, where string) {
 	}
 	lk := lockKeyOfPtr(p)
 	held := u.heldTerm(st, lk, p.Base)
-	u.oblige("lock.no_reentry("+lk+")", []string{"C09", "C11"}, "", st.pc, Eq(held, TZero), where, "acquiring "+lk+" while this activation already holds it")
+	u.oblige("lock.no_reentry("+lk+")", []string{"C09", "C11", "C13"}, "", st.pc, Eq(held, TZero), where, "acquiring "+lk+" while this activation already holds it")
 	u.lockOrder(st, lk, "", where)
 	// interference: fields protected by the lock may have changed before we got it
 	u.havocProtected(st, p, lk, "acq")
@@ -355,7 +355,7 @@ func (u *Unit) unlockOp(fr *Frame, st *State, pv Val, mode int64, where string) 
 	}
 	lk := lockKeyOfPtr(p)
 	held := u.heldTerm(st, lk, p.Base)
-	u.oblige("lock.unlock_held("+lk+")", []string{"C09", "C11"}, "", st.pc, Eq(held, IntLit(mode)), where, "unlock of a lock not held in that mode")
+	u.oblige("lock.unlock_held("+lk+")", []string{"C09", "C11", "C13"}, "", st.pc, Eq(held, IntLit(mode)), where, "unlock of a lock not held in that mode")
 	this := &Scalar{T: p.Base, Typ: types.NewPointer(p.RTyp)}
 	u.event(fr, st, "unlock "+lk, map[string]Val{"base": this}, where)
 	if mode == 2 {
@@ -683,7 +683,9 @@ func (u *Unit) intrinsicInvoke(fr *Frame, st *State, full string, recv Val, args
 		u.fact(fmt.Sprintf("(assert (>= %s 0))", e.S))
 		u.assume(st.pc, Eq(obs, Cmp(">", e, TZero)))
 		u.assume(st.pc, Implies(obs, App(SBool, "IsCtxErr", e)))
-		return &Scalar{T: e, Typ: sig.Results().At(0).Type(), Origin: "ctxerr", Aux: recv}, true
+		res := &Scalar{T: e, Typ: sig.Results().At(0).Type(), Origin: "ctxerr", Aux: recv}
+		u.event(fr, st, "ret Context.Err", map[string]Val{"ctx": recv, "result": res}, where)
+		return res, true
 	case "context.Context.Value", "context.Context.Deadline":
 		return u.freshResults(sig, "ctxv", st.pc), true
 	case "error.Error":
